@@ -61,6 +61,11 @@ fn assemble(secs: &[(u8, Vec<u8>)]) -> Vec<u8> {
 pub fn mutate(r: &mut rand::rngs::StdRng, bytes: &[u8]) -> (Vec<u8>, &'static str) {
     let k = r.gen_range(0..14);
     let mut b = bytes.to_vec();
+    if b.len() < 9 {
+        // (a mutant of a mutant may be shorter than a header)
+        b.push(r.gen());
+        return (b, "append-byte");
+    }
     match k {
         0 => {
             let i = r.gen_range(0..b.len());
@@ -162,6 +167,10 @@ pub fn mutate(r: &mut rand::rngs::StdRng, bytes: &[u8]) -> (Vec<u8>, &'static st
             let n = rd(&code, &mut i) as usize;
             let mut bodies: Vec<Vec<u8>> = vec![];
             for _ in 0..n {
+                // (the input may itself be a mutant whose count is oversized)
+                if i >= code.len() {
+                    return (b, "none");
+                }
                 let sz = rd(&code, &mut i) as usize;
                 if i + sz > code.len() {
                     return (b, "none");
@@ -246,7 +255,8 @@ pub fn corpus(seed: u64, n: usize, valid_inputs: &[Input]) -> Vec<Input> {
     // the valid inputs themselves (completeness) and their mutations
     for (k, v) in valid_inputs.iter().enumerate() {
         out.push(Input { id: format!("valid-{}", v.id), bytes: v.bytes.clone(), source: v.source.clone() });
-        let muts = (n / valid_inputs.len().max(1)).max(1);
+        // the corpus is held in memory: a large input gets fewer mutants (at most about 4 MB of them)
+        let muts = (n / valid_inputs.len().max(1)).max(1).min(((4 << 20) / v.bytes.len().max(1)).max(1));
         for j in 0..muts {
             let (mut b, mut what) = mutate(&mut r, &v.bytes);
             // stack a second mutation now and then
